@@ -6,6 +6,7 @@ import (
 	"log"
 	"net"
 	"net/http"
+	"sync"
 	"time"
 
 	"github.com/buildbuildio/pebbles/planner"
@@ -31,7 +32,21 @@ func (sd subscriptionDict) CleanAll() {
 	}
 }
 
-func sendHeartbeat(ctx context.Context, conn net.Conn) error {
+// frameConn serialises whole frames written to one connection: the heartbeat and every
+// subscription of the connection write from their own goroutines, and a text frame is more
+// than one write on the wire
+type frameConn struct {
+	net.Conn
+	mu sync.Mutex
+}
+
+func (c *frameConn) writeText(p []byte) error {
+	c.mu.Lock()
+	defer c.mu.Unlock()
+	return wsutil.WriteServerText(c.Conn, p)
+}
+
+func sendHeartbeat(ctx context.Context, conn *frameConn) error {
 	timeTicker := time.NewTicker(time.Second * 4)
 	defer timeTicker.Stop()
 
@@ -42,7 +57,7 @@ func sendHeartbeat(ctx context.Context, conn net.Conn) error {
 	for {
 		select {
 		case <-timeTicker.C:
-			if err := wsutil.WriteServerText(conn, bMsg); err != nil {
+			if err := conn.writeText(bMsg); err != nil {
 				return err
 			}
 		case <-ctx.Done():
@@ -61,10 +76,11 @@ func (g *Gateway) subscriptionHandler(w http.ResponseWriter, r *http.Request) {
 		},
 	}
 
-	conn, _, _, err := upgrader.Upgrade(r, w)
+	rawConn, _, _, err := upgrader.Upgrade(r, w)
 	if err != nil {
 		return
 	}
+	conn := &frameConn{Conn: rawConn}
 
 	subDict := make(subscriptionDict)
 
@@ -75,10 +91,13 @@ func (g *Gateway) subscriptionHandler(w http.ResponseWriter, r *http.Request) {
 		// gracefully close connection
 		body := ws.NewCloseFrameBody(ws.StatusNormalClosure, "")
 		frame := ws.NewCloseFrame(body)
-		if err := ws.WriteHeader(conn, frame.Header); err != nil {
-			return
+		conn.mu.Lock()
+		err := ws.WriteHeader(conn, frame.Header)
+		if err == nil {
+			_, err = conn.Write(body)
 		}
-		if _, err := conn.Write(body); err != nil {
+		conn.mu.Unlock()
+		if err != nil {
 			return
 		}
 
@@ -110,7 +129,7 @@ func (g *Gateway) subscriptionHandler(w http.ResponseWriter, r *http.Request) {
 			if err != nil {
 				return
 			}
-			if err := wsutil.WriteServerText(conn, bresp); err != nil {
+			if err := conn.writeText(bresp); err != nil {
 				return
 			}
 			// start sending heartbeat
